@@ -65,7 +65,7 @@ def run(ck):
               timeout=3000)
     # 2. impl -> spec
     trace = f"{ck.work}/trace.ndjson"
-    runs, ops, ln = (3, 250, 40) if ck.quick else (16, 600, 200)
+    runs, ops, ln = (3, 250, 40) if ck.quick else (8, 500, 120)
     args = ["record", "store", "--seed", ck.seed, "--out", trace, "--runs", runs, "--ops", ops, "--len", ln]
     if not ck.quick:
         args += ["--redb-file", ck.work]
